@@ -65,7 +65,352 @@ def run_eddsa_len(env, sh):
         env.check(True, 'refused')
 
 
-HARNESSES = dict(eddsa_srange=Harness('eddsa_srange', run_eddsa_srange), eddsa_len=Harness('eddsa_len', run_eddsa_len))
+# ------------------------------------------------------------------ RSA signatures (RFC 8017 s8, s9)
+
+DIGESTINFO = dict(SHA1=bytes.fromhex("3021300906052b0e03021a05000414"), SHA256=bytes.fromhex("3031300d060960864801650304020105000420"))
+DIGESTINFO_NONULL = dict(SHA1=bytes.fromhex("301f300706052b0e03021a0414"), SHA256=bytes.fromhex("302f300b0609608648016503040201" "0420"))
+HLEN = dict(SHA1=20, SHA256=32)
+
+
+def _hash(name, msg):
+    import importlib
+    return importlib.import_module("Crypto.Hash." + name).new(msg)
+
+
+class StubRsa(object):
+    """RSA key whose public/private operation is an arbitrary function (uninterpreted):
+    verify-side: _encrypt(sig_int) returns the symbolic integer chosen by the harness"""
+
+    def __init__(self, nbits, em_int=None, env=None):
+        self.n = (1 << nbits) - 1 - 2 * 7 if nbits > 8 else 251
+        self.n |= 1 << (nbits - 1)
+        self.e = 65537
+        self.em_int = em_int
+        self.env = env
+        self.enc_calls = []
+        self.dec_calls = []
+
+    def has_private(self):
+        return True
+
+    def _encrypt(self, x):
+        self.enc_calls.append(x)
+        return self.em_int
+
+    def _decrypt_to_bytes(self, x):
+        self.dec_calls.append(x)
+        raise _Captured()
+
+
+class _Captured(BaseException):
+    pass
+
+
+def _mgf1(P, hname, seed, n):
+    h = HLEN[hname]
+    t = [P.hash(hname, P.concat(seed, c.to_bytes(4, 'big')), h) for c in range((n + h - 1) // h)]
+    return P.concat(*t)[:n] if t else P.const(b"")
+
+
+def _clear_left(env, b0, nbits):
+    """first byte with its `nbits` leftmost bits cleared"""
+    return b0 & (0xFF >> nbits)
+
+
+def run_pss_encode(env, sh):
+    from Crypto.Signature import pss
+    P = env.P
+    hname, slen, embits = sh['hash'], sh['slen'], sh['embits']
+    h = HLEN[hname]
+    msg = env.bytes('msg', sh['mlen'])
+    mh = _hash(hname, msg)
+    draws = []
+
+    def rnd(n):
+        b = env.bytes('salt', int(n))
+        draws.append(b)
+        return b
+    emlen = (embits + 7) // 8
+    try:
+        em = pss._EMSA_PSS_ENCODE(mh, embits, rnd, lambda x, y: pss.MGF1(x, y, mh), slen)
+    except ValueError:
+        env.check(emlen < h + slen + 2, 'encoding error only when emLen < hLen + sLen + 2')
+        return
+    env.check(emlen >= h + slen + 2, 'encoding error when emLen < hLen + sLen + 2')
+    salt = draws[0] if draws else P.const(b"")
+    env.check(len(draws) == 1 and len(salt) == slen, 'exactly one salt of sLen bytes is drawn')
+    mhash = P.hash(hname, msg, h)
+    H = P.hash(hname, P.concat(bytes(8), mhash, salt), h)
+    db = P.concat(bytes(emlen - slen - h - 2), b"\x01", salt)
+    mdb = P.xor(db, _mgf1(P, hname, H, emlen - h - 1))
+    z = 8 * emlen - embits
+    mdb = P.concat(P.i2b(_clear_left(env, mdb[0], z), 1), mdb[1:])
+    env.check(em == P.concat(mdb, H, b"\xbc"), 'EM == maskedDB (leftmost 8emLen-emBits bits zero) || H || bc  (RFC 8017 9.1.1)')
+    env.check(mh.digest() == mhash, 'the hash object still yields the message digest (not consumed)')
+    # and the verifier accepts what the encoder produced
+    try:
+        pss._EMSA_PSS_VERIFY(mh, em, embits, lambda x, y: pss.MGF1(x, y, mh), slen)
+    except ValueError:
+        env.check(False, 'EMSA-PSS-VERIFY accepts the output of EMSA-PSS-ENCODE')
+
+
+def run_pss_verify(env, sh):
+    from Crypto.Signature import pss
+    P = env.P
+    hname, slen, embits = sh['hash'], sh['slen'], sh['embits']
+    h = HLEN[hname]
+    msg = env.bytes('msg', 2)
+    mh = _hash(hname, msg)
+    emlen = (embits + 7) // 8
+    em = env.bytes('em', emlen)
+    try:
+        pss._EMSA_PSS_VERIFY(mh, em, embits, lambda x, y: pss.MGF1(x, y, mh), slen)
+        ok = True
+    except ValueError:
+        ok = False
+    if emlen < h + slen + 2:
+        env.check(not ok, 'inconsistent when emLen < hLen + sLen + 2')
+        return
+    z = 8 * emlen - embits
+    mdb, H, bc = em[:emlen - h - 1], em[emlen - h - 1:emlen - 1], em[emlen - 1]
+    left_zero = (mdb[0] >> (8 - z)) == 0 if z else True
+    db = P.xor(mdb, _mgf1(P, hname, H, emlen - h - 1))
+    db = P.concat(P.i2b(_clear_left(env, db[0], z), 1), db[1:])
+    pslen = emlen - h - slen - 2
+    salt = db[pslen + 1:]
+    good = env.And(bc == 0xBC, left_zero, db[:pslen] == bytes(pslen), db[pslen] == 1,
+                   H == P.hash(hname, P.concat(bytes(8), P.hash(hname, msg, h), salt), h))
+    env.iff(ok, good, 'EMSA-PSS-VERIFY is consistent exactly per RFC 8017 9.1.2 steps 3-14')
+
+
+def run_pss_wrapper(env, sh):
+    """sign()/verify() wrappers: emBits = modBits - 1, k = ceil(modBits/8), length check, I2OSP"""
+    from Crypto.Signature import pss
+    P = env.P
+    nbits, hname = sh['nbits'], 'SHA1'
+    h = HLEN[hname]
+    k = (nbits + 7) // 8
+    emlen = (nbits - 1 + 7) // 8
+    msg = env.bytes('msg', 1)
+    mh = _hash(hname, msg)
+    em_int = env.int('em_int', nbits - 1)
+    key = StubRsa(nbits, em_int)
+    sig = env.bytes('sig', sh.get('siglen', k))
+    ver = pss.new(key, salt_bytes=sh['slen'])
+    try:
+        ver.verify(mh, sig)
+        ok = True
+    except ValueError:
+        ok = False
+    if sh.get('siglen', k) != k:
+        env.check(not ok, 'a signature whose length is not k is refused')
+        return
+    env.check(len(key.enc_calls) == 1 and key.enc_calls[0] == P.b2i(sig), 'the public operation is applied to OS2IP(signature)')
+    if ok:
+        # accepted => EM = I2OSP(m, emLen) exists and is consistent with emBits = modBits - 1
+        env.check(em_int < (1 << (8 * emlen)), 'accepted => the integer fits in emLen bytes')
+        em = P.i2b(em_int, emlen)
+        try:
+            pss._EMSA_PSS_VERIFY(mh, em, nbits - 1, lambda x, y: pss.MGF1(x, y, mh), sh['slen'])
+        except ValueError:
+            env.check(False, 'accepted => EMSA-PSS-VERIFY(M, I2OSP(m, emLen), modBits-1) is consistent')
+    # sign side: the encoded message handed to the private operation
+    draws = []
+    signer = pss.PSS_SigScheme(key, None, sh['slen'], lambda n: draws.append(env.bytes('salt', int(n))) or draws[-1])
+    try:
+        signer.sign(mh)
+    except _Captured:
+        em_signed = P.i2b(key.dec_calls[-1], emlen) if True else None
+        try:
+            pss._EMSA_PSS_VERIFY(mh, em_signed, nbits - 1, lambda x, y: pss.MGF1(x, y, mh), sh['slen'])
+        except ValueError:
+            env.check(False, 'what sign() feeds to the private key is a consistent EMSA-PSS encoding for modBits-1')
+        env.check(key.dec_calls[-1] < (1 << (nbits - 1)), 'the encoded message is below 2^(modBits-1)')
+    except ValueError:
+        env.check(emlen < h + sh['slen'] + 2, 'sign refuses only when the key is too small for hash and salt')
+
+
+def _ref_emsa_v15(P, hname, digest, k, null=True):
+    di = (DIGESTINFO if null else DIGESTINFO_NONULL)[hname]
+    t = P.concat(di, digest)
+    return P.concat(b"\x00\x01", b"\xff" * (k - len(t) - 3), b"\x00", t)
+
+
+def run_v15_sig(env, sh):
+    from Crypto.Signature import pkcs1_15
+    P = env.P
+    hname, nbits = sh['hash'], sh['nbits']
+    h = HLEN[hname]
+    k = (nbits + 7) // 8
+    msg = env.bytes('msg', 2)
+    mh = _hash(hname, msg)
+    digest = P.hash(hname, msg, h)
+    tlen = len(DIGESTINFO[hname]) + h
+    em_int = env.int('em_int', nbits)
+    key = StubRsa(nbits, em_int)
+    sig = env.bytes('sig', sh.get('siglen', k))
+    try:
+        pkcs1_15.new(key).verify(mh, sig)
+        ok = True
+    except ValueError:
+        ok = False
+    if sh.get('siglen', k) != k:
+        env.check(not ok, 'a signature whose length is not k is refused')
+        return
+    if k < tlen + 11:
+        env.check(not ok, 'intended encoded message length too short => invalid')
+        return
+    env.check(key.enc_calls[0] == P.b2i(sig), 'the public operation is applied to OS2IP(signature)')
+    e1 = P.b2i(_ref_emsa_v15(P, hname, digest, k, True))
+    e2 = P.b2i(_ref_emsa_v15(P, hname, digest, k, False))
+    env.iff(ok, env.Or(em_int == e1, em_int == e2),
+            'verify accepts iff EM equals the EMSA-PKCS1-v1_5 encoding (DigestInfo with or without NULL parameters)')
+    # sign: deterministic, exactly the RFC 8017 9.2 encoding with NULL parameters
+    try:
+        pkcs1_15.new(key).sign(mh)
+    except _Captured:
+        env.check(key.dec_calls[-1] == e1, 'sign() feeds EMSA-PKCS1-v1_5-ENCODE(M, k) (NULL parameters present) to the private key')
+    env.check(mh.digest() == digest, 'the hash object is not consumed')
+
+
+# ------------------------------------------------------------------ DSS (FIPS 186-4 / RFC 6979)
+
+class StubDsaKey(object):
+    def __init__(self, env, q):
+        self.env, self.q = env, q
+        self.verify_calls = []
+        self.sign_calls = []
+        self.verdict = None
+
+    def has_private(self):
+        return True
+
+    def _verify(self, z, rs):
+        self.verify_calls.append((z, rs))
+        if self.verdict is None:
+            self.verdict = self.env.bool('verdict')       # the group equation: an arbitrary outcome
+        return self.verdict
+
+    def _sign(self, z, k):
+        self.sign_calls.append((z, k))
+        r, s = self.env.int('r_out', self.q.bit_length()), self.env.int('s_out', self.q.bit_length())
+        if isinstance(r, int):
+            r, s = r % self.q, s % self.q          # concrete replay: the primitive returns values below q
+        return (r, s)
+
+
+def _iv(x):
+    v = getattr(x, '_value', None)
+    return v if v is not None else int(x)
+
+
+def _scheme(env, q, encoding, hname='SHA256'):
+    from Crypto.Signature import DSS
+    from Crypto.Math.Numbers import Integer
+    key = StubDsaKey(env, q)
+    sch = DSS.DeterministicDsaSigScheme(key, encoding, Integer(q), Integer(3))
+    return sch, key
+
+
+def _ref_der_int(P, v, nbytes):
+    return P.concat(b"\x02", bytes([nbytes]), P.i2b(v & ((1 << (8 * nbytes)) - 1), nbytes))
+
+
+def run_dss_verify_bin(env, sh):
+    P = env.P
+    q = sh['q']
+    ob = (q.bit_length() - 1) // 8 + 1
+    sch, key = _scheme(env, q, 'binary')
+    msg = env.bytes('msg', 2)
+    mh = _hash('SHA256', msg)
+    sig = env.bytes('sig', sh.get('siglen', 2 * ob))
+    try:
+        sch.verify(mh, sig)
+        ok = True
+    except ValueError:
+        ok = False
+    if len(sig) != 2 * ob:
+        env.check(not ok, 'wrong length refused')
+        return
+    r, s = P.b2i(sig[:ob]), P.b2i(sig[ob:])
+    in_range = env.And(r > 0, r < q, s > 0, s < q)
+    if ok:
+        env.check(in_range, 'accepted => 0 < r, s < q')
+        z, (rr, ss) = key.verify_calls[0]
+        env.check(env.And(_iv(rr) == r, _iv(ss) == s), 'the verification equation is evaluated on the decoded (r, s)')
+        env.check(_iv(z) == P.b2i(P.hash('SHA256', msg, 32)[:ob]), 'z == leftmost order_bytes of the digest')
+        env.check(key.verdict, 'accepted => the verification equation holds')
+    else:
+        env.check(env.Not(env.And(in_range, key.verdict)) if key.verdict is not None else env.Not(in_range),
+                  'rejected => out of range or the equation fails')
+
+
+def run_dss_verify_der(env, sh):
+    """every byte string of the given length offered as a DER signature (small order so that all
+    structurally valid encodings fit in the length bound)"""
+    P = env.P
+    q = sh['q']
+    sch, key = _scheme(env, q, 'der')
+    msg = env.bytes('msg', 1)
+    mh = _hash('SHA256', msg)
+    sig = env.bytes('sig', sh['n'])
+    try:
+        sch.verify(mh, sig)
+        ok = True
+    except ValueError:
+        ok = False
+    if not ok:
+        env.check(True, 'rejected')
+        return
+    z, (rr, ss) = key.verify_calls[0]
+    r, s = _iv(rr), _iv(ss)
+    env.check(env.And(r > 0, r < q, s > 0, s < q), 'accepted => 0 < r, s < q')
+    # canonical: the accepted string is exactly the minimal DER of SEQUENCE { INTEGER r, INTEGER s }
+    cases = []
+    for lr in (1, 2, 3):
+        for ls in (1, 2, 3):
+            if 2 + 2 + lr + 2 + ls != sh['n']:
+                continue
+            minimal = env.And(r >= (1 << (8 * (lr - 1) - 1)) if lr > 1 else True, r < (1 << (8 * lr - 1)),
+                              s >= (1 << (8 * (ls - 1) - 1)) if ls > 1 else True, s < (1 << (8 * ls - 1)))
+            enc = P.concat(b"\x30", bytes([4 + lr + ls]), _ref_der_int(P, r, lr), _ref_der_int(P, s, ls))
+            cases.append(env.And(minimal, sig == enc))
+    env.check(env.Or(*cases) if cases else False, 'accepted => the input is the minimal definite DER of SEQUENCE{INTEGER r, INTEGER s}, nothing trailing')
+    env.check(key.verdict, 'accepted => the verification equation holds')
+
+
+def run_dss_sign(env, sh):
+    P = env.P
+    q = sh['q']
+    ob = (q.bit_length() - 1) // 8 + 1
+    sch, key = _scheme(env, q, sh['encoding'])
+    sch._compute_nonce = lambda mh: 5            # nonce derivation is checked separately
+    msg = env.bytes('msg', 2)
+    mh = _hash('SHA256', msg)
+    out = sch.sign(mh)
+    r, s = None, None
+    z, k = key.sign_calls[0]
+    env.check(_iv(z) == P.b2i(P.hash('SHA256', msg, 32)[:ob]), 'z == leftmost order_bytes of the digest')
+    ro, so = env.int('r_out', q.bit_length()), env.int('s_out', q.bit_length())
+    if not isinstance(ro, int):
+        env.assume(env.And(ro < q, so < q))          # the primitive returns values below q
+    else:
+        ro, so = ro % q, so % q
+    if sh['encoding'] == 'binary':
+        env.check(out == P.concat(P.i2b(ro, ob), P.i2b(so, ob)), 'binary signature == I2OSP(r) || I2OSP(s), each order_bytes long')
+    else:
+        from Crypto.Util.asn1 import DerSequence
+        back = DerSequence().decode(out, strict=True)
+        env.check(len(back) == 2, 'DER signature is a SEQUENCE of two members')
+        env.check(env.And(back[0] == ro, back[1] == so), 'DER signature decodes (strictly) to (r, s)')
+    env.check(mh.digest() == P.hash('SHA256', msg, 32), 'the hash object is not consumed')
+
+
+HARNESSES = dict(pss_encode=Harness('pss_encode', run_pss_encode), pss_verify=Harness('pss_verify', run_pss_verify),
+                 pss_wrapper=Harness('pss_wrapper', run_pss_wrapper), v15_sig=Harness('v15_sig', run_v15_sig),
+                 dss_verify_bin=Harness('dss_verify_bin', run_dss_verify_bin), dss_verify_der=Harness('dss_verify_der', run_dss_verify_der, max_paths=30000),
+                 dss_sign=Harness('dss_sign', run_dss_sign),
+                 eddsa_srange=Harness('eddsa_srange', run_eddsa_srange), eddsa_len=Harness('eddsa_len', run_eddsa_len))
 
 
 def shapes(tier):
@@ -82,6 +427,38 @@ def shapes(tier):
         jobs.append(('eddsa_srange', dict(curve=curve, key=keys[0], R=_identity(curve).hex(), mlen=1, ctx=3, range='near')))
         for slen in (0, 1, n, 2 * n - 1, 2 * n + 1):
             jobs.append(('eddsa_len', dict(curve=curve, slen=slen)))
+    # RSASSA-PSS: every value of 8*emLen - emBits (0..7), salt lengths around the limits
+    for z in range(8):
+        for slen in ((0, 1, 20) if th else (0, 20)):
+            emlen = 20 + slen + 2 + (3 if th else 1)
+            jobs.append(('pss_encode', dict(hash='SHA1', slen=slen, embits=8 * emlen - z, mlen=3)))
+            jobs.append(('pss_verify', dict(hash='SHA1', slen=slen, embits=8 * emlen - z)))
+    for slen, emlen in ((20, 41), (20, 42), (0, 21), (0, 22)):
+        jobs.append(('pss_encode', dict(hash='SHA1', slen=slen, embits=8 * emlen, mlen=0)))
+        jobs.append(('pss_verify', dict(hash='SHA1', slen=slen, embits=8 * emlen - 1)))
+    for nbits in ((336, 337, 338, 343, 344, 345) if th else (337, 344, 345)):
+        jobs.append(('pss_wrapper', dict(nbits=nbits, slen=20)))
+    jobs.append(('pss_wrapper', dict(nbits=344, slen=20, siglen=42)))
+    jobs.append(('pss_wrapper', dict(nbits=344, slen=20, siglen=44)))
+    for hname, tl in (('SHA1', 35), ('SHA256', 51)):
+        for k in ((tl + 11, tl + 12, tl + 20) if th else (tl + 11, tl + 13)):
+            jobs.append(('v15_sig', dict(hash=hname, nbits=8 * k)))
+            if th:
+                jobs.append(('v15_sig', dict(hash=hname, nbits=8 * k - 7)))
+        jobs.append(('v15_sig', dict(hash=hname, nbits=8 * (tl + 12), siglen=tl + 11)))
+    # DSS
+    P256_Q = 115792089210356248762697446949407573529996955224135760342422259061068512044369
+    for q in (P256_Q, 65521, 257, (1 << 160) - 47):
+        jobs.append(('dss_verify_bin', dict(q=q)))
+        ob = (q.bit_length() - 1) // 8 + 1
+        jobs.append(('dss_verify_bin', dict(q=q, siglen=2 * ob - 1)))
+        jobs.append(('dss_verify_bin', dict(q=q, siglen=2 * ob + 1)))
+        for enc in ('binary', 'der'):
+            if enc == 'der' and q.bit_length() > 64:
+                continue        # DER INTEGER encoding forks once per byte length of r and of s
+            jobs.append(('dss_sign', dict(q=q, encoding=enc)))
+    for n in (range(0, 13) if th else (6, 8, 9, 10)):
+        jobs.append(('dss_verify_der', dict(q=65521, n=n)))
     return jobs
 
 
